@@ -233,6 +233,17 @@ func call(op string, t reflect.Type, val int) (res string) {
 		var back pooled
 		uerr := segjson.Unmarshal(b, &back)
 		return fmt.Sprintf("%s|%v|%s|%v", b, err, canon(back), uerr)
+	case "json.Encoder":
+		// the writer yields while it consumes what Encode handed to it: the bytes passed to Write belong
+		// to that call until it returns, whatever other goroutines encode meanwhile
+		w := &yieldingWriter{}
+		e := segjson.NewEncoder(w)
+		e.SetEscapeHTML(val%2 == 0)
+		var errs []error
+		for i := 0; i < 3; i++ {
+			errs = append(errs, e.Encode(ptr))
+		}
+		return fmt.Sprintf("%s|%v", w.buf, errs)
 	case "json.TokenizerReuse":
 		// one Tokenizer used for several inputs: exhausted (its stack goes back to the pool), Reset
 		// half-way through a nested document, and reused again
@@ -298,7 +309,21 @@ func descID(t proto.Type) int64 {
 	return v.(int64)
 }
 
-var ops = []string{"json.Marshal", "json.Unmarshal", "json.Tokenizer", "json.TokenizerReuse", "json.PooledMaps", "proto.Marshal", "proto.Size", "proto.TypeOf", "thrift.Marshal.compact", "thrift.Marshal.binary"}
+type yieldingWriter struct{ buf []byte }
+
+func (w *yieldingWriter) Write(p []byte) (int, error) {
+	for i := 0; i < len(p); i += 48 {
+		j := i + 48
+		if j > len(p) {
+			j = len(p)
+		}
+		runtime.Gosched()
+		w.buf = append(w.buf, p[i:j]...)
+	}
+	return len(p), nil
+}
+
+var ops = []string{"json.Encoder", "json.Marshal", "json.Unmarshal", "json.Tokenizer", "json.TokenizerReuse", "json.PooledMaps", "proto.Marshal", "proto.Size", "proto.TypeOf", "thrift.Marshal.compact", "thrift.Marshal.binary"}
 
 type outcome struct {
 	step Step
